@@ -873,7 +873,8 @@ namespace awkward {
 
   const ContentPtr
   UnmaskedArray::fillna(const ContentPtr& value) const {
-    return content_.get()->fillna(value);
+    // nothing is missing at this level; deeper levels are not this node's to fill
+    return content_;
   }
 
   const ContentPtr
